@@ -228,6 +228,10 @@ class MitmOracle(Oracle):
 
                 epoch = _tls.Epoch.INITIAL if p.ptype == "initial" else _tls.Epoch.HANDSHAKE
                 consumed = ep.conn._crypto_streams[epoch].receiver._buffer_start
+                # a packet number below what the receiver has pruned from its ACK state is discarded
+                # as a possible duplicate (RFC 9000 12.3), not processed
+                if p.pn < getattr(ep.conn._spaces[epoch], "ack_queue_floor", 0):
+                    continue
             except Exception:
                 continue
             for f in p.frames:
